@@ -18,7 +18,7 @@ for i in ids:
             "engine": "kani-cbmc",
             "level_claimed": {"category": "model_checking", "text": m["level_text"], "design_ref": m.get("design_ref", "DESIGN.md section 7/" + i)},
             "level_note": m["level_note"],
-            "technique": m.get("technique", "bounded model checking of the compiled Rust code (Kani 0.68 -> CBMC 6.11 -> CaDiCaL): symbolic inputs/state, unwinding assertions on, counterexamples replayed natively"),
+            "technique": m["technique"],
         })
     else:
         na.append({"property_id": i, "reason": P.NOT_APPLICABLE.get(i, "check not built yet (work in progress in this session)")})
